@@ -30,7 +30,7 @@ PROPS["C04"] = dict(l1_ops=["rplus", "lplus", "rminus", "lminus", "between"] + l
 PROPS["C15"] = dict(l1_ops=[], l1_algo=["interp_slerp", "interp_cubic", "interp_smooth", "phi"], l2_algo="C15",
                     n_l1=(60, 600), n_l2=(10, 200))
 PROPS["C16"] = dict(l1_ops=[], l1_algo=["avg_bi", "avg_w", "avg_fl", "avg_fr"], l2_algo="C16",
-                    n_l1=(30, 300), n_l2=(6, 80))
+                    n_l1=(30, 300), n_l2=(16, 120))
 PROPS["C17"] = dict(l1_ops=[], l1_algo=["decasteljau"], l2_algo="C17", box=True,
                     n_l1=(60, 600), n_l2=(10, 150))
 PROPS["C18"] = dict(l1_ops=[], l1_approx=True, l2_algo="C18", n_l1=(200, 4000), n_l2=(60, 1500))
